@@ -104,7 +104,7 @@ def main(tier, replay):
     }
     table = {"org.example.t": svcs["unix-deep"].address}
     resolver = fakesvc.FakeService("unix", fakesvc.resolver_handler(table), path=os.path.join(tmp, "resolver"))
-    n = 300 if tier == "quick" else 20000
+    n = 800 if tier == "quick" else 20000
     if replay:
         ctx.replay_mode = True
         w = json.load(open(replay))["witness"]
